@@ -21,6 +21,7 @@ class SimCfg(ctypes.Structure):
         ("record_trace", ctypes.c_int),
         ("reserved", ctypes.c_int),
         ("max_steps", ctypes.c_uint64),
+        ("window_fn", ctypes.c_uint64),
     ]
 
 
@@ -71,7 +72,7 @@ class Sim:
         self._keep = None
         self._syms = None
 
-    def begin(self, seed, nthreads=1, strategy="rtc_id", chunk_shuffle=0, preempt_mean=0, window_pct=100, poison=0, record=False, max_steps=0, replay=None):
+    def begin(self, seed, nthreads=1, strategy="rtc_id", chunk_shuffle=0, preempt_mean=0, window_pct=100, poison=0, record=False, max_steps=0, replay=None, window_fn=0):
         cfg = SimCfg(
             int(nthreads),
             STRATS.index(strategy) if isinstance(strategy, str) else int(strategy),
@@ -82,6 +83,7 @@ class Sim:
             int(bool(record)),
             0,
             int(max_steps),
+            int(window_fn),
         )
         self.lib.simgomp_begin(ctypes.c_uint64(seed & ((1 << 64) - 1)), ctypes.byref(cfg))
         if replay is not None:
@@ -138,7 +140,7 @@ class Sim:
             self.lib.simgomp_region(i, ctypes.byref(off), ctypes.byref(runs), ctypes.byref(rm), ctypes.byref(mt), buf, 512)
             lib = os.path.basename(buf.value.decode())[:-3]
             name = self._syms.get((lib, off.value), "%s+0x%x" % (lib, off.value))
-            out[lib + ":" + name] = {"runs": runs.value, "runs_multi": rm.value, "max_team": mt.value}
+            out[lib + ":" + name] = {"runs": runs.value, "runs_multi": rm.value, "max_team": mt.value, "off": off.value}
         return out
 
     def reset_regions(self):
